@@ -60,6 +60,21 @@ Definition replay1 (l : list name) (o : iop) : list name :=
 
 Definition replay (ops : list iop) (l : list name) : list name := fold_left replay1 ops l.
 
+(* an op "fits" a replica when a strict client can apply it: an insert position is at most the length,
+   a remove position holds the named key *)
+Definition op_fits (l : list name) (o : iop) : bool :=
+  match o with
+  | OpClear => true
+  | OpIns i _ => i <=? length l
+  | OpRem i k => match nth_error l i with Some x => name_eqb x k | None => false end
+  end.
+
+Fixpoint ops_fit (ops : list iop) (l : list name) : bool :=
+  match ops with
+  | [] => true
+  | o :: t => op_fits l o && ops_fit t (replay1 l o)
+  end.
+
 (* ------------------------------------------------------------------ one node *)
 
 Record inode := mkNode { idx : option (list name); ctr : nat }.
